@@ -464,6 +464,23 @@ def rule_online(ctx, rep, rid):
                       "%s %s while the thread is offline (after flavor->thread_offline()): for a QSBR table the read-side sections taken there protect nothing - a node removed, "
                       "waited for and freed by its owner is still dereferenced" % (g.srcname, bad[1] if bad else ""), [o.where()] + ([bad[0].where()] if bad else []))
     pat.require(n >= 1, "no thread_offline() in the hash table any more")
+    # the converse, where the table itself decides: a caller found outside any read-side section (read_ongoing() == 0; for QSBR: offline)
+    # is brought online before the emptiness walk reads the chain
+    g = fn(ctx, "cds_lfht_is_empty")
+    ro = flavor_icalls(g, "read_ongoing")
+    if ro:
+        rep.touch(g)
+        off_edges = [(t, s_) for t, s_, a in pat.branch_edges_on(g, lambda a: a[0] == "eq" and a[2] == ("c", 0) and ir.expr_contains(a[1], lambda z: z[0] == "icall" or (z[0] == "call" and "read_ongoing" in str(z[1]))))]
+        walk = [l for l in pat.loads(g, NEXT)]
+        ons = flavor_icalls(g, "thread_online")
+        lks = flavor_icalls(g, "read_lock")
+        if off_edges and walk:
+            for t, s_ in off_edges[:1]:
+                st = g.blocks[s_].insts[0]
+                rep.must_pass(rid, "is_empty.online≺walk", g, [st], walk, lambda i: i in ons, include_start=True, what="a caller that is not in a read-side section goes online before the emptiness walk")
+                rep.must_pass(rid, "is_empty.lock≺walk", g, [st], walk, lambda i: i in lks, include_start=True, what="... and takes the read-side lock before the emptiness walk")
+        else:
+            rep.unk(rid, "is_empty.online≺walk", "cds_lfht_is_empty: the read_ongoing() test does not steer a branch this rule recognises")
 
 
 def rule_rev(ctx, rep, rid):
